@@ -72,12 +72,16 @@ structure Chan where
   sent : List Val
   /-- ghost: values handed to receivers, in order -/
   recvd : List Val
+  /-- ghost: `sent` with the sending thread of each value -/
+  sentBy : List (Tid × Val)
+  /-- ghost: `recvd` with the thread whose variable received each value -/
+  recvBy : List (Tid × Val)
 deriving DecidableEq, Repr, Hashable
 
 /-- `NewChan(eltSize, cap)` -/
 def newChan (cfg : Cfg) (cap : Nat) : Chan :=
   { fixed := cfg.recvseqFix, recvseq := 0, cap := cap, data := List.replicate cap 0, slot := none, getp := 0, len := 0, closed := false,
-    sends := 0, selsends := 0, sops := [], sent := [], recvd := [] }
+    sends := 0, selsends := 0, sops := [], sent := [], recvd := [], sentBy := [], recvBy := [] }
 
 /-- logical contents of the ring, oldest first: cells `getp, getp+1, …` (mod cap), `len` of them -/
 def ringFrom (data : List Val) (cap getp : Nat) : Nat → List Val
@@ -116,9 +120,9 @@ def Point.isWait : Point → Bool
 
 /-- value returned by a channel-level function to its caller -/
 inductive Ret
-  | sent                              -- ChanSend returned
+  | sent (c : Cid) (v : Val)          -- ChanSend(c, v) returned
   | closed                            -- ChanClose returned
-  | recv (ok : Bool)                  -- ChanRecv returned recvOK
+  | recv (c : Cid) (ok : Bool)        -- ChanRecv(c) returned recvOK
   | trySend (ok : Bool)               -- ChanTrySend
   | tryRecv (recvOK tryOK : Bool)     -- chanTryRecv
   | prep                              -- prepareSelect returned
@@ -152,25 +156,28 @@ structure BodyRes where
   out : Out
 
 /-- write into the ring cell `(getp + len) % cap`, `len++` -/
-def Chan.push (ch : Chan) (v : Val) : Chan :=
-  { ch with data := ch.data.set ((ch.getp + ch.len) % ch.cap) v, len := ch.len + 1, sent := ch.sent ++ [v] }
+def Chan.push (ch : Chan) (t : Tid) (v : Val) : Chan :=
+  { ch with data := ch.data.set ((ch.getp + ch.len) % ch.cap) v, len := ch.len + 1, sent := ch.sent ++ [v],
+            sentBy := ch.sentBy ++ [(t, v)] }
 
 /-- the cell `getp`, then `getp = (getp+1) % cap; len--` -/
 def Chan.front (ch : Chan) : Val := ch.data.getD ch.getp 0
-def Chan.pop (ch : Chan) : Chan :=
-  { ch with getp := (ch.getp + 1) % ch.cap, len := ch.len - 1, recvd := ch.recvd ++ [ch.front] }
+def Chan.pop (ch : Chan) (r : Tid) : Chan :=
+  { ch with getp := (ch.getp + 1) % ch.cap, len := ch.len - 1, recvd := ch.recvd ++ [ch.front],
+            recvBy := ch.recvBy ++ [(r, ch.front)] }
 
 /-- `p.recvseq++` of the fixed variant -/
 def Chan.bump (ch : Chan) : Nat := if ch.fixed then ch.recvseq + 1 else ch.recvseq
 
 /-- unbuffered hand-off: `if p.data != nil { Memcpy(p.data, v) }; p.getp = chanNoSendRecv` [`; p.recvseq++`] -/
-def Chan.handOff (ch : Chan) (v : Val) : Chan × Option (Target × Val) :=
+def Chan.handOff (ch : Chan) (t : Tid) (v : Val) : Chan × Option (Target × Val) :=
   match ch.slot with
-  | some tg => ({ ch with getp := noSendRecv, recvseq := ch.bump, sent := ch.sent ++ [v], recvd := ch.recvd ++ [v] }, some (tg, v))
-  | none => ({ ch with getp := noSendRecv, recvseq := ch.bump, sent := ch.sent ++ [v] }, none)
+  | some tg => ({ ch with getp := noSendRecv, recvseq := ch.bump, sent := ch.sent ++ [v], recvd := ch.recvd ++ [v],
+                          sentBy := ch.sentBy ++ [(t, v)], recvBy := ch.recvBy ++ [(tg.tid, v)] }, some (tg, v))
+  | none => ({ ch with getp := noSendRecv, recvseq := ch.bump, sent := ch.sent ++ [v], sentBy := ch.sentBy ++ [(t, v)] }, none)
 
 /-- ChanSend from the loop head (mutex held) -/
-def sendLoop (ch : Chan) (c : Cid) (v : Val) : BodyRes :=
+def sendLoop (ch : Chan) (t : Tid) (c : Cid) (v : Val) : BodyRes :=
   if ch.cap = 0 then
     if ch.getp ≠ hasRecv ∧ ch.closed = false then
       let ch1 := { ch with sends := ch.sends + 1 }
@@ -179,23 +186,23 @@ def sendLoop (ch : Chan) (c : Cid) (v : Val) : BodyRes :=
       else ⟨ch1, none, .wait (.sendWaitU c v)⟩
     else if ch.closed then ⟨ch, none, .panic⟩
     else
-      let (ch1, d) := ch.handOff v
-      ⟨ch1, d, .notify (.finish true (.ret .sent))⟩
+      let (ch1, d) := ch.handOff t v
+      ⟨ch1, d, .notify (.finish true (.ret (.sent c v)))⟩
   else
     if ch.len = ch.cap then ⟨ch, none, .wait (.sendWaitB c v)⟩
     else if ch.closed then ⟨ch, none, .panic⟩
-    else ⟨ch.push v, none, .notify (.finish true (.ret .sent))⟩
+    else ⟨ch.push t v, none, .notify (.finish true (.ret (.sent c v)))⟩
 
 /-- ChanRecv from the (first) loop head -/
 def recvLoop (ch : Chan) (c : Cid) (tg : Target) : BodyRes :=
   if ch.cap = 0 then
     if ch.getp = hasRecv ∧ ch.closed = false then ⟨ch, none, .wait (.recvWaitU c tg.slot)⟩
-    else if ch.closed then ⟨ch, none, .unlock (.recv false)⟩
+    else if ch.closed then ⟨ch, none, .unlock (.recv c false)⟩
     else ⟨{ ch with getp := hasRecv, slot := some tg }, none, .notify (.finish true (.recv2 false ch.recvseq))⟩
   else
     if ch.len = 0 then
-      if ch.closed then ⟨ch, none, .unlock (.recv false)⟩ else ⟨ch, none, .wait (.recvWaitB c tg.slot)⟩
-    else ⟨ch.pop, some (tg, ch.front), .notify (.finish true (.ret (.recv true)))⟩
+      if ch.closed then ⟨ch, none, .unlock (.recv c false)⟩ else ⟨ch, none, .wait (.recvWaitB c tg.slot)⟩
+    else ⟨ch.pop tg.tid, some (tg, ch.front), .notify (.finish true (.ret (.recv c true)))⟩
 
 /-- second phase of an unbuffered receive.
     current variant: `for p.getp == chanHasRecv && !p.close { Wait }; recvOK = !p.close`;
@@ -203,24 +210,24 @@ def recvLoop (ch : Chan) (c : Cid) (tg : Target) : BodyRes :=
 def recv2Loop (ch : Chan) (c : Cid) (try_ : Bool) (seq : Nat) : BodyRes :=
   if ch.fixed then
     if ch.recvseq = seq ∧ ch.closed = false then ⟨ch, none, .wait (.recv2Wait c try_ seq)⟩
-    else ⟨ch, none, .unlock (if try_ then .tryRecv (ch.recvseq != seq) (ch.recvseq != seq) else .recv (ch.recvseq != seq))⟩
+    else ⟨ch, none, .unlock (if try_ then .tryRecv (ch.recvseq != seq) (ch.recvseq != seq) else .recv c (ch.recvseq != seq))⟩
   else
     if ch.getp = hasRecv ∧ ch.closed = false then ⟨ch, none, .wait (.recv2Wait c try_ seq)⟩
-    else ⟨ch, none, .unlock (if try_ then .tryRecv (!ch.closed) (!ch.closed) else .recv (!ch.closed))⟩
+    else ⟨ch, none, .unlock (if try_ then .tryRecv (!ch.closed) (!ch.closed) else .recv c (!ch.closed))⟩
 
 def closeBody (ch : Chan) : BodyRes :=
   if ch.closed then ⟨ch, none, .panic⟩
   else ⟨{ ch with closed := true }, none, .notify (.finish true (.ret .closed))⟩
 
-def trySendBody (ch : Chan) (v : Val) : BodyRes :=
+def trySendBody (ch : Chan) (t : Tid) (v : Val) : BodyRes :=
   if ch.cap = 0 then
     if ch.getp ≠ hasRecv ∨ ch.closed then ⟨ch, none, .unlock (.trySend false)⟩
     else
-      let (ch1, d) := ch.handOff v
+      let (ch1, d) := ch.handOff t v
       ⟨ch1, d, .notify (.finish true (.ret (.trySend true)))⟩
   else
     if ch.len = ch.cap ∨ ch.closed then ⟨ch, none, .unlock (.trySend false)⟩
-    else ⟨ch.push v, none, .notify (.finish true (.ret (.trySend true)))⟩
+    else ⟨ch.push t v, none, .notify (.finish true (.ret (.trySend true)))⟩
 
 def tryRecvBody (ch : Chan) (tg : Target) (accept : Bool) : BodyRes :=
   if ch.cap = 0 then
@@ -229,7 +236,7 @@ def tryRecvBody (ch : Chan) (tg : Target) (accept : Bool) : BodyRes :=
     else ⟨{ ch with getp := hasRecv, slot := some tg }, none, .notify (.finish true (.recv2 true ch.recvseq))⟩
   else
     if ch.len = 0 then ⟨ch, none, .unlock (.tryRecv false ch.closed)⟩
-    else ⟨ch.pop, some (tg, ch.front), .notify (.finish true (.ret (.tryRecv true true)))⟩
+    else ⟨ch.pop tg.tid, some (tg, ch.front), .notify (.finish true (.ret (.tryRecv true true)))⟩
 
 def prepBody (ch : Chan) (t : Tid) (isSend : Bool) : BodyRes :=
   let ch1 := if ch.cap = 0 ∧ isSend then { ch with sends := ch.sends + 1, selsends := ch.selsends + 1 } else ch
@@ -244,16 +251,16 @@ def endBody (ch : Chan) (t : Tid) (isSend : Bool) : BodyRes :=
 /-- the critical section entered at scheduling point `p` by thread `t` (mutex just acquired) -/
 def body (p : Point) (t : Tid) (ch : Chan) : BodyRes :=
   match p with
-  | .sendLock c v => sendLoop ch c v
-  | .sendWaitU c v => sendLoop { ch with sends := ch.sends - 1 } c v      -- `p.sends--` after Wait
-  | .sendWaitB c v => sendLoop ch c v
+  | .sendLock c v => sendLoop ch t c v
+  | .sendWaitU c v => sendLoop { ch with sends := ch.sends - 1 } t c v      -- `p.sends--` after Wait
+  | .sendWaitB c v => sendLoop ch t c v
   | .recvLock c slot => recvLoop ch c ⟨t, slot⟩
   | .recvWaitU c slot => recvLoop ch c ⟨t, slot⟩
   | .recvWaitB c slot => recvLoop ch c ⟨t, slot⟩
   | .recv2Lock c try_ seq => recv2Loop ch c try_ seq
   | .recv2Wait c try_ seq => recv2Loop ch c try_ seq
   | .closeLock _ => closeBody ch
-  | .trySendLock _ v => trySendBody ch v
+  | .trySendLock _ v => trySendBody ch t v
   | .tryRecvLock _ slot accept => tryRecvBody ch ⟨t, slot⟩ accept
   | .prepLock _ isSend => prepBody ch t isSend
   | .endLock _ isSend => endBody ch t isSend
@@ -277,9 +284,9 @@ deriving DecidableEq, Repr, Hashable
 
 /-- result of a finished operation -/
 inductive Res
-  | sent
+  | sent (c : Cid) (v : Val)
   | closed
-  | recv (v : Val) (ok : Bool)
+  | recv (c : Cid) (v : Val) (ok : Bool)
   /-- select committed case `idx`; `stray`: receive variables of OTHER cases that were written (`(case, value)`) -/
   | sel (idx : Nat) (v : Val) (ok : Bool) (stray : List (Nat × Val))
   /-- `TrySelect` took `default`; `stray` as above -/
@@ -435,9 +442,9 @@ def onRet (th : Thread) (r : Ret) : Thread :=
   match th.sel with
   | none =>
     match r with
-    | .sent => finishOp th .sent
+    | .sent c v => finishOp th (.sent c v)
     | .closed => finishOp th .closed
-    | .recv ok => finishOp th (.recv (th.rv.getD 0 0) ok)
+    | .recv c ok => finishOp th (.recv c (th.rv.getD 0 0) ok)
     | _ => finishOp th .panic      -- unreachable: try-functions are only called from select
   | some sl =>
     match r with
